@@ -73,6 +73,9 @@ func (fr *frame) call(c *ssa.CallCommon, site *ssa.Call, st *State) TV {
 	if fr.env0 != nil && s.FC != nil && len(s.FC.Ats) > 0 && site != nil {
 		fr.atAsserts(key, site, args, c, st)
 	}
+	if (fr.isTop || fr.transparent) && s.FC != nil && len(s.FC.Deferred) > 0 && site != nil {
+		fr.deferredClosures(key, site, c, st)
+	}
 	// ---- contract ----
 	if fc := s.P.contractFor(key); fc != nil && !fc.Inline {
 		return fr.applyContract(fc, key, callee, sig, c, args, argVals, resT, st)
@@ -221,6 +224,9 @@ func (fr *frame) inline(callee *ssa.Function, cl *closure, args []TV, resT types
 	nf := s.newFrame(callee, fr.depth+1)
 	nf.env0 = fr.env0
 	nf.parent = fr
+	if cl != nil {
+		nf.site = fr.curSite // names the literal does not capture resolve in the enclosing function here
+	}
 	if cl == nil && (fr.isTop || fr.transparent) && fr.curSite != nil && s.isNewHelper(callee) {
 		nf.transparent = true
 		nf.site = fr.curSite
@@ -853,4 +859,100 @@ func (fr *frame) atAsserts(key string, site *ssa.Call, args []TV, c *ssa.CallCom
 		s.addObl(&Obligation{Name: fmt.Sprintf("%s#at:%s:%s@%d", shortKey(FuncKey(s.Top)), at.Callee, at.C.Label, top.atCount[at.C.Label]), Props: fr.propsOf(at.C), Kind: "call-site-assert", Label: at.C.Label, Goal: fmt.Sprintf("(=> %s %s)", st.Guard, g), Src: src})
 		top.atHit[at.C.Label] = true
 	}
+}
+
+// deferredClosures: `deferred <callee>` - a function literal handed to <callee> is run
+// LATER (a hook, a callback). Two things are checked where it is handed over:
+//   - its body, executed on a copy of the state at this point (so the `$k:<callee>`
+//     call-site clauses written for the literal are proved for the values its captured
+//     variables have now); the copy is dropped, the literal has not run yet;
+//   - every variable it captured by reference is not assigned again afterwards in this
+//     function (a range variable shared by all iterations is): otherwise what runs later
+//     sees another value than the one the clauses were proved for. Decided on the CFG.
+func (fr *frame) deferredClosures(key string, site *ssa.Call, c *ssa.CallCommon, st *State) {
+	s := fr.s
+	for _, d := range s.FC.Deferred {
+		if !s.matchesCallee(key, d.Callee) {
+			continue
+		}
+		for _, a := range c.Args {
+			mc, ok := a.(*ssa.MakeClosure)
+			if !ok {
+				continue
+			}
+			fr.val(mc, st)
+			cl := fr.clos[mc]
+			lit, _ := mc.Fn.(*ssa.Function)
+			if cl == nil || lit == nil {
+				continue
+			}
+			// (1) the body, now, on a copy
+			if fr.canInline(lit, true) {
+				tmp := st.clone()
+				saved := fr.curSite
+				fr.curSite = site
+				fr.inline(lit, cl, nil, nil, tmp)
+				fr.curSite = saved
+			} else {
+				s.note("%s: the function literal handed to %s is not executed symbolically (too large or recursive); only its captures are checked", FuncKey(s.Top), d.Callee)
+			}
+			// (2) captured-by-reference variables stay as they are
+			top := fr
+			for top.parent != nil {
+				top = top.parent
+			}
+			for i, b := range mc.Bindings {
+				al, isAlloc := b.(*ssa.Alloc)
+				if !isAlloc {
+					continue
+				}
+				name := "?"
+				if i < len(lit.FreeVars) {
+					name = lit.FreeVars[i].Name()
+				}
+				goal, src := "true", d.C.Src
+				if st := storeAfter(mc, al); st != nil {
+					goal = "false"
+					src = fmt.Sprintf("%s: captured variable %q is assigned again at %s after the literal was made", d.C.Src, name, s.P.Fset.Position(st.Pos()))
+				}
+				top.atCount[d.C.Label+":"+name]++
+				s.addObl(&Obligation{Name: fmt.Sprintf("%s#deferred:%s:%s:captured_%s_keeps_its_value@%d", shortKey(FuncKey(s.Top)), d.Callee, d.C.Label, name, top.atCount[d.C.Label+":"+name]), Props: fr.propsOf(d.C), Kind: "frame", Label: d.C.Label, Goal: goal, Src: src})
+			}
+		}
+	}
+}
+
+// storeAfter: a store to cell al reachable from (after) instruction from without passing
+// the allocation of al again (which makes a fresh cell).
+func storeAfter(from ssa.Instruction, al *ssa.Alloc) *ssa.Store {
+	blk := from.Block()
+	seen := map[*ssa.BasicBlock]bool{}
+	var scan func(b *ssa.BasicBlock, start int) *ssa.Store
+	scan = func(b *ssa.BasicBlock, start int) *ssa.Store {
+		for _, in := range b.Instrs[start:] {
+			if in == ssa.Instruction(al) {
+				return nil
+			}
+			if sto, ok := in.(*ssa.Store); ok && sto.Addr == ssa.Value(al) {
+				return sto
+			}
+		}
+		for _, su := range b.Succs {
+			if seen[su] {
+				continue
+			}
+			seen[su] = true
+			if r := scan(su, 0); r != nil {
+				return r
+			}
+		}
+		return nil
+	}
+	idx := 0
+	for i, in := range blk.Instrs {
+		if in == from {
+			idx = i + 1
+		}
+	}
+	return scan(blk, idx)
 }
